@@ -111,11 +111,12 @@ def norm(x):
     return repr(x)
 
 
-def state(h):
+def state(h, with_dtr=True):
     out = {}
     for k in ("A", "B", "C"):
         u = h[k]
-        out[k] = (u.short, sorted(u.groups), u.dtr0, u.dtr1, u.dtr2)
+        # what the shared DTRs hold after concurrent transactions legitimately depends on which came last
+        out[k] = (u.short, sorted(u.groups)) + ((u.dtr0, u.dtr1, u.dtr2) if with_dtr else ())
     out["new"] = sorted((u.short is None, u.short or 0) for u in h["new"])
     out["tc"] = (h["A"].tc.temporary_tc, h["A"].tc.actual_tc) if h["A"].tc else None
     out["devs"] = [(d.short, [(x.filter, x.scheme) for x in d.instances], d.quiescent) for d in h["devs"]]
@@ -168,14 +169,23 @@ def run_case(driver, seed, i, res, prefix, concurrent=False):
             for k in range(len(sc2)):
                 await one(k)
         else:
-            # read-only sequences on different units commute: started together, each must still see only its own answers
-            ro = [k for k, (n, _) in enumerate(sc2) if n.startswith(("QueryDeviceTypes", "QueryGroups(B)", "GTIN", "Firmware",
-                                                                      "Identification", "Hardware", "LastMemory", "BANK_0"))
-                  and "again" not in n]
-            first = [k for k in ro if k < 2] + [k for k in ro if k >= 4]
-            rest = [k for k in range(len(sc2)) if k not in first]
-            await asyncio.gather(*[one(k) for k in first])
-            for k in rest:
+            # one chain of sequences per unit, the chains started together: every sequence loads the DTRs it needs inside its
+            # own transaction, so - transactions being atomic - the results do not depend on how the chains interleave.
+            # Scans that touch every unit (instance discovery, commissioning) run afterwards.
+            chains = {}
+            tail = []
+            for k, (n, _) in enumerate(sc2):
+                if n.startswith(("autodiscover", "Commissioning")):
+                    tail.append(k)
+                    continue
+                unit = "A" if "(A" in n else "B" if "(B" in n else "C" if "(C" in n else n[n.index("(dev"):].split(",")[0]
+                chains.setdefault(unit, []).append(k)
+
+            async def chain(ks):
+                for k in ks:
+                    await one(k)
+            await asyncio.gather(*[chain(ks) for ks in chains.values()])
+            for k in tail:
                 await one(k)
         await asyncio.sleep(0.5)
         return True
@@ -212,7 +222,7 @@ def run_case(driver, seed, i, res, prefix, concurrent=False):
             res.observe("serial-gateway-collision-read-as-silence",
                         f"Commissioning through the {driver} driver addressed {sum(1 for u in h2['new'] if u.short is not None)} of "
                         f"{len(h2['new'])} new units: their simultaneous YES to COMPARE collides and arrives as 'no answer'")
-        s1, s2 = state(h1), state(h2)
+        s1, s2 = state(h1, not concurrent), state(h2, not concurrent)
         if s1 != s2:
             res.violation(f"{prefix}/{driver}/integration/final-state-differs",
                           f"units end in a different state: direct {s1}, through the driver {s2}", wit)
